@@ -112,6 +112,26 @@ class World:
     raise ValueError(q)
 
 
+def world_class(w):
+  """'cyclic'/'acyclic' (+conditions) from the live Program's own edges."""
+  succ = {n.id: [m.id for m in n.outgoing] for n in w.nodes}
+  state = {}
+
+  def dfs(u):
+    state[u] = 1
+    for v in succ[u]:
+      if state.get(v) == 1:
+        return False
+      if v not in state and not dfs(v):
+        return False
+    state[u] = 2
+    return True
+
+  acyclic = all(dfs(u) for u in list(succ) if u not in state)
+  conds = any(n.condition is not None for n in w.nodes)
+  return ("acyclic" if acyclic else "cyclic") + ("+conditions" if conds else "")
+
+
 def replica_answer(log, q):
   w = World()
   for op in log:
@@ -123,8 +143,10 @@ def run_log(ops, ctx=None):
   """Replay a mixed list of mutations and queries; return first mismatch."""
   w = World()
   log = []
+  seen = []
   for op in ops:
     op = tuple(op)
+    seen.append(op)
     if op[0] in MUTATING:
       w.apply(op)
       log.append(op)
@@ -133,6 +155,19 @@ def run_log(ops, ctx=None):
       again = w.query(op)
       want = replica_answer(log, op)
       if got != want:
+        w2 = World()
+        for m in log:
+          w2.apply(m)
+        tail = []
+        for prev in reversed(seen[:-1]):
+          if prev[0] in MUTATING:
+            break
+          tail.append(prev)
+        tail.reverse()
+        for prev in tail:
+          w2.query(prev)
+        if w2.query(op) != want:
+          return ("order:" + world_class(w2), op, got, want)
         return ("stale", op, got, want)
       if again != got:
         return ("flip", op, got, again)
@@ -204,7 +239,27 @@ def make_machine(ctx):
                (["after:" + k for k in kinds] if nontriv else []))
       if got != want:
         sig = "stale-answer-after:" + ("+".join(kinds) or "nothing")
-        # attribute to the smallest cause: if only one kind intervened use it
+        # Root-cause classification.  If the mismatch is reproduced by a
+        # Program that first receives ALL mutations and only then the solver
+        # queries asked since the last mutation, no mutation is involved: the
+        # memo of an earlier *query* changed the answer (query-order
+        # dependence).  Otherwise a mutation failed to invalidate.
+        tail = []
+        for op in reversed(self.full[:-1]):
+          if op[0] in MUTATING:
+            break
+          tail.append(tuple(op))
+        tail.reverse()
+        w2 = World()
+        for op in self.log:
+          w2.apply(op)
+        for op in tail:
+          w2.query(op)
+        if w2.query(q) != want:
+          sig = "query-order-dependence:" + world_class(w2)
+        if ctx.is_known(sig):
+          ctx.known_hits[sig] += 1
+          return
         self._fail(sig, "%s = %r on the long-lived Program, %r on a replica "
                    "rebuilt from the %d logged mutations" %
                    (list(q), got, want, len(self.log)))
@@ -290,9 +345,17 @@ def make_machine(ctx):
       extra = sorted({self._b(x) for x in s})
       if v == v2:
         return
+      # conservative: no binding of the source variable (nor an extra source)
+      # may already depend on any binding of the target variable, otherwise the
+      # sequence of pastes could close a source cycle
       for sb in self.w.vars[v2].bindings:
-        if not self._paste_ok(v, self.w.binds.index(sb), extra):
-          return
+        for tb in self.w.vars[v].bindings:
+          if sb.HasSource(tb):
+            return
+      for i in extra:
+        for tb in self.w.vars[v].bindings:
+          if self.w.binds[i].HasSource(tb):
+            return
       self._mut(("paste_v", v, v2, None if w is None else self._n(w), extra))
 
     @rule(v=I, b=I, d=st.integers(0, 2))
@@ -356,8 +419,101 @@ def make_machine(ctx):
   return Machine
 
 
+def query_order_search(ctx, n_examples):
+  """Build a (mostly cyclic) graph completely, then ask a generated sequence
+  of solver queries on it; each answer must equal the answer of a Program
+  that is asked only that query."""
+  from hypothesis import strategies as st
+  from props import c07_solver
+  from vlib import tg
+  from vlib.run import hyp_run
+
+  @st.composite
+  def cases(draw):
+    spec, _ = draw(c07_solver.spec_strategy(
+        draw(st.sampled_from(["cyclic", "cyclic", "cond"]))))
+    if draw(st.booleans()):
+      spec.pop("conds", None)
+    nb = len(spec["bindings"])
+    qs = draw(st.lists(st.tuples(
+        st.integers(0, spec["n"] - 1),
+        st.lists(st.integers(0, nb - 1), min_size=1, max_size=2,
+                 unique=True).map(sorted)), min_size=2, max_size=25))
+    return spec, qs
+
+  def body(x):
+    spec, qs = x
+    prog, nodes, _, binds = tg.build(spec)
+    cls = c07_solver.graph_class(spec)
+    for k, (n, S) in enumerate(qs):
+      live = nodes[n].HasCombination([binds[i] for i in S])
+      want = c07_solver.ask_fresh(spec, n, S)
+      ctx.case(key=(c07_solver.tg_key(spec), tuple(map(repr, qs[:k + 1]))),
+               nontrivial=k > 0,
+               sample=("%s | after %d earlier queries: n%d %s" % (
+                   c07_solver.fmt_spec(spec), k, n, S) if k > 3 else None),
+               classes=["Q:" + cls])
+      ctx.check(live == want, "query-order-dependence:" + cls,
+                "after %s, HasCombination(%s) at n%d = %s; alone it is %s" %
+                (qs[:k], S, n, live, want),
+                {"spec": spec, "queries": [list(q) for q in qs[:k + 1]]})
+    del prog
+
+  hyp_run(ctx, cases(), body, n_examples, label="Q")
+
+
+def query_order_exhaustive(ctx, n, chain_only):
+  """All digraphs on n nodes (optionally only those containing the chain
+  0->1->..->n-1) x all placements of three source-free bindings (two of one
+  variable, one of another): all singleton queries asked in two orders on a
+  long-lived Program and compared with single-query Programs."""
+  import itertools
+  from props import c07_solver
+  from vlib import tg
+  pairs = [(a, b) for a in range(n) for b in range(n) if a != b]
+  chain = {(i, i + 1) for i in range(n - 1)}
+  free = [p for p in pairs if not (chain_only and p in chain)]
+  idx = 0
+  for mask in range(1 << len(free)):
+    edges = [list(p) for p in sorted(chain)] if chain_only else []
+    edges += [list(free[i]) for i in range(len(free)) if mask >> i & 1]
+    for w0, w1, w2 in itertools.product(range(n), repeat=3):
+      if w0 >= w1:
+        continue
+      idx += 1
+      if idx % ctx.nshards != ctx.shard:
+        continue
+      spec = {"n": n, "edges": edges, "nv": 2,
+              "bindings": [[0, [[w0, [[]]]]], [0, [[w1, [[]]]]],
+                           [1, [[w2, [[]]]]]]}
+      cls = c07_solver.graph_class(spec)
+      qs = [(node, (b,)) for node in range(n) for b in range(3)]
+      want = {q: c07_solver.ask_fresh(spec, q[0], q[1]) for q in qs}
+      for order_name, order in (("fwd", qs), ("rev", qs[::-1])):
+        prog, nodes, _, binds = tg.build(spec)
+        for k, (node, S) in enumerate(order):
+          live = nodes[node].HasCombination([binds[i] for i in S])
+          ctx.case(key=("X", n, mask, w0, w1, w2, order_name, k),
+                   nontrivial=k > 0 and cls.startswith("cyclic"),
+                   sample=("%s | %s order, query %d: n%d b%d" % (
+                       c07_solver.fmt_spec(spec), order_name, k, node, S[0])
+                           if idx % 9973 == ctx.shard and k == 5 else None),
+                   classes=["X:" + cls])
+          ctx.check(live == want[(node, S)], "query-order-dependence:" + cls,
+                    "after %s, HasCombination(%s) at n%d = %s; alone it is %s"
+                    % (order[:k], S, node, live, want[(node, S)]),
+                    {"spec": spec,
+                     "queries": [[q[0], list(q[1])] for q in order[:k + 1]]})
+        del prog
+
+
 def run_shard(ctx):
   boot.ensure()
+  query_order_exhaustive(ctx, 3, chain_only=False)
+  query_order_exhaustive(ctx, 4, chain_only=True)
+  if not ctx.quick():
+    query_order_exhaustive(ctx, 4, chain_only=False)
+  query_order_search(ctx, 400 if ctx.quick() else 8000)
   if ctx.quick():
     state_machine_run(ctx, make_machine(ctx), max_examples=150, step_count=50,
                       label="m")
@@ -376,11 +532,27 @@ def check_ops(ops):
 
 def replay(ctx, case):
   ctx.case(key=repr(case), nontrivial=True)
+  if "queries" in case:
+    from props import c07_solver
+    from vlib import tg
+    spec = case["spec"]
+    prog, nodes, _, binds = tg.build(spec)
+    for n, S in case["queries"]:
+      live = nodes[n].HasCombination([binds[i] for i in S])
+      want = c07_solver.ask_fresh(spec, n, S)
+      if live != want:
+        raise Violation("query-order-dependence:" +
+                        c07_solver.graph_class(spec),
+                        "n%d %s: %s vs alone %s" % (n, S, live, want), case)
+    return
   r = check_ops(case["ops"])
   if r:
-    raise Violation("stale-answer" if r[0] == "stale" else
-                    "answer-flips-on-repeat", r[1], case)
+    sig = {"stale": "stale-answer", "flip": "answer-flips-on-repeat"}.get(
+        r[0], "query-order-dependence:" + r[0][6:])
+    raise Violation(sig, r[1], case)
 
 
 def confirm_known(entry):
-  return check_ops(entry["input"]["ops"]) is not None
+  r = check_ops(entry["input"]["ops"])
+  return bool(r) and ("query-order-dependence:" + r[0][6:] ==
+                      entry["signature"])
